@@ -299,6 +299,8 @@ func (s *store) authValues(rng *rand.Rand) []string {
 		"Bearer ' OR '1'='1", "Bearer トークン", "Basic dXNlcjpwYXNz", "Bearer " + adminTokenValue + "\t"}
 }
 
+var fullAuthGrid = map[string]bool{"GET /api/v1/chain/tip/longest": true, "GET /api/v1/access": true, "POST /api/v1/access": true, "DELETE /api/v1/access/:token": true}
+
 var rawQueries = []string{"foo=bar", "height", "height=", "=1", "&&&", "a=1;b=2", "%zz", "height=%zz", "url=%", "height[]=1", "height=1&height=abc", "count=1&count=-1",
 	"x=" + strings.Repeat("y", 10240), "%00", "?", "batchSize=5&batchSize=abc", "debug=2", "lastEvaluatedKey", "a=%F0%9F%98%80"}
 
@@ -386,12 +388,20 @@ func (s *store) grid(rng *rand.Rand, rt *routeInfo) []*Req {
 	if !rt.api {
 		return out
 	}
-	for _, a := range s.authValues(rng) {
+	auths := s.authValues(rng)
+	if !fullAuthGrid[rt.key()] { // the credential check is one middleware shared by all API routes
+		auths = []string{"", "Bearer " + randHex(rng, 32), "Bearer " + s.userToken, "Token " + adminTokenValue}
+	}
+	for _, a := range auths {
 		q := base.clone()
 		q.Auth = a
 		out = append(out, q)
 	}
-	for _, rq := range rawQueries {
+	raws := rawQueries
+	if len(rt.query) == 0 {
+		raws = []string{"foo=bar", "%zz", "height=abc&count=-1&url=&batchSize=x", "x=" + strings.Repeat("y", 10240)}
+	}
+	for _, rq := range raws {
 		q := base.clone()
 		q.RawQ = rq
 		out = append(out, q)
@@ -412,7 +422,13 @@ func (s *store) grid(rng *rand.Rand, rt *routeInfo) []*Req {
 			q.Body = b
 			out = append(out, q)
 		}
-		for _, ct := range contentTypes {
+		cts := contentTypes
+		alt := []string{"application/x-www-form-urlencoded", "application/xml", "multipart/form-data; boundary=xyz", ""}
+		if rt.bodyKind != "webhook" { // only webhook registration binds by content type
+			cts = []string{"", "text/plain", "application/xml", "application/x-www-form-urlencoded"}
+			alt = []string{"application/x-www-form-urlencoded"}
+		}
+		for _, ct := range cts {
 			q := base.clone()
 			q.CT = ct
 			out = append(out, q)
@@ -421,8 +437,11 @@ func (s *store) grid(rng *rand.Rand, rt *routeInfo) []*Req {
 			q2.Body = []byte("not json")
 			out = append(out, q2)
 		}
-		for _, b := range s.nonJSONBodies(rng) {
-			for _, ct := range []string{"application/x-www-form-urlencoded", "application/xml", "multipart/form-data; boundary=xyz", "application/x-yaml", "application/toml", "application/x-msgpack", "application/x-protobuf", ""} {
+		for i, b := range s.nonJSONBodies(rng) {
+			for j, ct := range alt {
+				if rt.bodyKind != "webhook" && (i+j)%4 != 0 {
+					continue
+				}
 				q := base.clone()
 				q.Body, q.CT = b, ct
 				out = append(out, q)
@@ -433,7 +452,7 @@ func (s *store) grid(rng *rand.Rand, rt *routeInfo) []*Req {
 		out = append(out, q)
 	} else {
 		// a body where none is expected
-		for _, b := range [][]byte{[]byte("{}"), []byte("not json"), []byte("[]"), jsonList(s.tip)} {
+		for _, b := range [][]byte{[]byte("{}"), []byte("not json"), jsonList(s.tip)} {
 			q := base.clone()
 			q.Body, q.CT = b, "application/json"
 			out = append(out, q)
@@ -642,4 +661,60 @@ func itoa(n int64) string {
 		b[i] = '-'
 	}
 	return string(b[i:])
+}
+
+// mutateReq: novelty-guided step — take a request that showed a new (route, classes, status) triple
+// and change one or two of its components (grammar value, or a byte-level mutation of the body).
+func (s *store) mutateReq(rng *rand.Rand, seed *Req) *Req {
+	q := seed.clone()
+	rt := s.tw.byKey[q.key()]
+	if rt == nil {
+		return q
+	}
+	for n := 1 + rng.Intn(2); n > 0; n-- {
+		var slots []string
+		for _, p := range rt.params {
+			slots = append(slots, "p:"+p)
+		}
+		for _, sp := range rt.query {
+			slots = append(slots, "q:"+sp.name)
+		}
+		if rt.bodyKind != "" {
+			slots = append(slots, "body", "body", "ct")
+		}
+		slots = append(slots, "auth", "raw")
+		switch sl := slots[rng.Intn(len(slots))]; {
+		case strings.HasPrefix(sl, "p:"):
+			vs := s.paramValues(rng, paramKind(sl[2:]))
+			if v := vs[rng.Intn(len(vs))]; v != missing {
+				q.Path[sl[2:]] = v
+			}
+		case strings.HasPrefix(sl, "q:"):
+			for _, sp := range rt.query {
+				if sp.name == sl[2:] {
+					vs := s.paramValues(rng, sp.kind)
+					q.setQuery(sp.name, vs[rng.Intn(len(vs))])
+				}
+			}
+		case sl == "body":
+			if rng.Intn(3) == 0 {
+				vals := s.bodyValues(rng, rt.bodyKind)
+				q.Body = vals[rng.Intn(len(vals))]
+			} else {
+				q.Body = mutate(rng, q.Body)
+			}
+		case sl == "ct":
+			q.CT = contentTypes[rng.Intn(len(contentTypes))]
+		case sl == "auth":
+			if rng.Intn(4) == 0 {
+				a := s.authValues(rng)
+				q.Auth = a[rng.Intn(len(a))]
+			}
+		case sl == "raw":
+			if rng.Intn(3) == 0 {
+				q.RawQ = rawQueries[rng.Intn(len(rawQueries))]
+			}
+		}
+	}
+	return q
 }
